@@ -168,8 +168,11 @@ def replay(path):
 # ---------------------------------------------------------------------------- evidence
 
 def write_evidence(check, tier, seed, agg, extra_cov, n_viol, n_known):
-    os.makedirs(os.path.join(VERIF, 'evidence'), exist_ok=True)
-    path = os.path.join(VERIF, 'evidence', '%s.json' % check.ID)
+    # evidence/ describes runs against /repo itself; a run against a scratch copy (VERIF_REPO=..., used to try
+    # seeded changes without touching /repo) writes its evidence next to the replays, which are not committed
+    sub = 'evidence' if world.REPO == os.path.realpath('/repo') else os.path.join('replays', 'evidence-of-scratch-runs')
+    os.makedirs(os.path.join(VERIF, sub), exist_ok=True)
+    path = os.path.join(VERIF, sub, '%s.json' % check.ID)
     wall = getattr(agg, 'wall_s', 0.0)
     cov = {
         'evaluations': int(agg.runs),
